@@ -312,7 +312,14 @@ fn second_instance_part(res: &mut PartResult) {
     let returned_early = drx.try_recv().is_ok();
     let _ = rtx.send(());
     t1.join().unwrap();
-    let ra = t2.join().unwrap();
+    let ra = match t2.join() {
+        Ok(r) => r,
+        Err(p) => {
+            let msg = p.downcast_ref::<String>().cloned().or_else(|| p.downcast_ref::<&str>().map(|s| s.to_string())).unwrap_or_default();
+            res.violation("panic", format!("into_inner panicked while it was waiting for a call parked inside the recorder (150 ms): {}", msg), json!({}));
+            return;
+        }
+    };
     drop(ra);
     let got = seen_a.lock().unwrap().clone();
     if returned_early {
